@@ -16,6 +16,7 @@ import (
 	"sync"
 	"time"
 
+	"github.com/vipnode/vipnode/v2/agent"
 	"github.com/vipnode/vipnode/v2/ethnode"
 	"github.com/vipnode/vipnode/v2/jsonrpc2"
 	"github.com/vipnode/vipnode/v2/pool"
@@ -702,6 +703,82 @@ func c15Withheld(ctx *Ctx, i int) {
 	ctx.Emit(Case{I: i, Kind: "withheld-replies", Desc: map[string]interface{}{"notes": notes}, Monitor: mon})
 }
 
+// hostilePool answers the agent's calls with structurally valid replies full of odd values.
+type hostilePool struct {
+	scriptPool
+	nilBalance bool
+}
+
+func (p *hostilePool) Update(ctx context.Context, r pool.UpdateRequest) (*pool.UpdateResponse, error) {
+	resp, err := p.scriptPool.Update(ctx, r)
+	if resp != nil && p.nilBalance {
+		resp.Balance = nil
+	}
+	return resp, err
+}
+
+var hostileRefs = []string{"", "enode://", "enode://@", "enode://id@1.2.3.4:notaport", "%zz", "enode://a b@%zz", "http://x/y", "enode://" + strings.Repeat("e", 137),
+	strings.Repeat("é", 70), "enode://" + strings.Repeat("a1", 64) + "@[::1", "enode://" + strings.Repeat("a1", 64) + "@1.2.3.4:99999", "://", "enode:opaque",
+	"enode://" + strings.Repeat("a1", 64) + "@1.2.3.4:30303?discport=x#frag", "\x00", "enode://" + strings.Repeat("a1", 64) + "@:0"}
+
+// c15Agent: the agent side of "no message from the network can crash or wedge": a real Agent
+// (strict peering on and off) runs keep-alive rounds against a pool whose replies carry malformed
+// peer references, no balance, hosts with odd URIs.  A panic in the agent is a violation; errors
+// are fine.
+func c15Agent(ctx *Ctx, i int, rng *rand.Rand) {
+	var mon []string
+	rounds := 0
+	for k := 0; k < 40 && len(mon) == 0; k++ {
+		strict := k%2 == 0
+		node := &recNode{kind: ethnode.Geth, full: k%3 == 0, connFail: -1}
+		for j := rng.Intn(4); j > 0; j-- {
+			node.peers = append(node.peers, genLocalPeer(rng))
+		}
+		hp := &hostilePool{nilBalance: rng.Intn(3) == 0}
+		hp.peerMode = []string{"ok", "ok", "nopeers", "fail"}[rng.Intn(4)]
+		pick := func(n int) []string {
+			var out []string
+			for j := 0; j < n; j++ {
+				if rng.Intn(3) == 0 {
+					out = append(out, genPoolRef(rng))
+				} else {
+					out = append(out, hostileRefs[rng.Intn(len(hostileRefs))])
+				}
+			}
+			return out
+		}
+		hp.active, hp.invalid, hp.peerURIs = pick(rng.Intn(5)), pick(rng.Intn(4)), pick(rng.Intn(4))
+		a := &agent.Agent{EthNode: node, NumHosts: rng.Intn(5), StrictPeers: strict, UpdateInterval: time.Hour}
+		desc := fmt.Sprintf("strict=%v active=%q invalid=%q peer_uris=%q nil_balance=%v", strict, hp.active, hp.invalid, hp.peerURIs, hp.nilBalance)
+		func() {
+			defer func() {
+				if r := recover(); r != nil {
+					mon = append(mon, fmt.Sprintf("c15-agent-panic: the agent panicked on a pool reply (%s): %v", desc, r))
+				}
+			}()
+			done := make(chan struct{})
+			go func() {
+				defer func() {
+					if r := recover(); r != nil {
+						mon = append(mon, fmt.Sprintf("c15-agent-panic: the agent panicked on a pool reply (%s): %v", desc, r))
+					}
+					close(done)
+				}()
+				cctx, cancel := context.WithTimeout(context.Background(), 3*time.Second)
+				defer cancel()
+				a.UpdatePeers(cctx, hp)
+			}()
+			select {
+			case <-done:
+			case <-time.After(5 * time.Second):
+				mon = append(mon, fmt.Sprintf("c15-agent-wedged: a keep-alive round did not return within 5 s (%s)", desc))
+			}
+		}()
+		rounds++
+	}
+	ctx.Emit(Case{I: i, Kind: "agent-hostile-pool", Desc: map[string]interface{}{"rounds": rounds}, Monitor: mon})
+}
+
 func runC15(ctx *Ctx) {
 	per := ctx.N(120, 1500)
 	cases := ctx.N(6, 60)
@@ -734,6 +811,11 @@ func runC15(ctx *Ctx) {
 	}
 	if ctx.Want(cases + 2) {
 		c15Withheld(ctx, cases+2)
+	}
+	for c := 0; c < ctx.N(2, 20); c++ {
+		if ctx.Want(cases + 3 + c) {
+			c15Agent(ctx, cases+3+c, ctx.Sub(cases+3+c))
+		}
 	}
 	_ = context.Background
 	_ = rand.Int
